@@ -97,17 +97,24 @@ pub fn run_tls(m: &TlsMaterial, c: &TlsCase) -> Result<TlsObs, String> {
         tail.insert(0, 0);
         // the response inside TLS repeats the capabilities (a client may also send other ones)
         // (nothing obliges a client to repeat CLIENT_SSL there: the connection is already encrypted)
-        let caps2 = match r.below(3) {
+        let mut caps2 = match r.below(3) {
             0 => caps,
             1 => r.next() as u32 | wire::CLIENT_SSL,
             _ => (if r.bool() { caps } else { r.next() as u32 }) & !wire::CLIENT_SSL,
         };
+        // half of the time the tail is what a real client sends: authentication response, the default
+        // schema it wants (CLIENT_CONNECT_WITH_DB), plugin name, attributes
+        if r.bool() {
+            caps2 |= 0x0000_0008 | wire::CLIENT_PROTOCOL_41;
+            tail = wire::handshake41_tail(caps2, b"01234567890123456789", *r.pick(&[&b"inventory"[..], b"db", b"\xc3\xa9t\xc3\xa9"]), b"mysql_native_password", &[]);
+        }
         inner = wire::handshake41(caps2, if r.bool() { mp } else { r.next() as u32 }, cs, &c.user, &tail);
         if r.bool() {
             let k = inner.len().min(32);
             inner[9..k].copy_from_slice(&sslreq[9..k]);
         }
     }
+    let inner_handshake = inner.clone();
     let (mut app, _) = wire::frame(&inner, c.seqs.1);
     let mut chunks = Vec::new();
     for cmd in &c.cmds {
@@ -129,6 +136,7 @@ pub fn run_tls(m: &TlsMaterial, c: &TlsCase) -> Result<TlsObs, String> {
     w.raw_limit = c.raw_limit;
     w.write_fault = c.write_fault;
     w.buffer_writes = c.buffer_writes;
+    w.inner_handshake = inner_handshake;
     w.eager_close = c.eager_close && c.close_notify && c.app_override.is_none();
     if c.record_per_command && c.app_override.is_none() {
         w.app_chunks = chunks;
@@ -321,7 +329,15 @@ fn judge(m: &TlsMaterial, c: &TlsCase, o: &TlsObs, rep: &mut Report, d: &dyn Fn(
     rep.counters.inc("canary_scans");
     // ---- commands served exactly as over plaintext
     let mut plain = Case::new(c.cmds.clone(), c.scripts.clone());
-    plain.handshake = wire::handshake41(0x003f_a685, 1 << 24, 0x21, &c.user, b"\0");
+    // the plaintext twin logs in with the very handshake response the TLS client sent inside TLS
+    // (minus the SSL bit): whatever that response asks for - a default schema, say - is asked of both
+    plain.handshake = if o.world.inner_handshake.len() > 4 {
+        let mut h = o.world.inner_handshake.clone();
+        h[1] &= !0x08;
+        h
+    } else {
+        wire::handshake41(0x003f_a685, 1 << 24, 0x21, &c.user, b"\0")
+    };
     let po = run_case(&plain);
     let pout = po.output();
     let (ppk, _) = wire::packets_prefix(&pout);
